@@ -13,6 +13,7 @@ CONSTANTS
   FixH13 = FALSE
   FixRevertVerify = FALSE
   FixUnderflow = FALSE
+  Fine = TRUE
 INIT TraceInit
 NEXT TraceNext
 CONSTRAINT TraceConstraint
